@@ -1,0 +1,25 @@
+//! Observation points for external verification harnesses.
+//!
+//! Compiled only with `--cfg mdw_verif`; without it nothing in this file exists.
+//! A harness installs one process-global callback with [`set_hook`]; the crate calls
+//! [`emit`] at a few points (after the state change each one reports). The callback
+//! runs synchronously on the calling thread.
+
+use std::sync::Mutex;
+
+pub type Hook = Box<dyn FnMut(&'static str, &[(&'static str, i64)], Option<&[u8]>) + Send>;
+
+static HOOK: Mutex<Option<Hook>> = Mutex::new(None);
+
+/// Installs (or removes, with `None`) the callback.
+pub fn set_hook(hook: Option<Hook>) {
+    *HOOK.lock().unwrap_or_else(|e| e.into_inner()) = hook;
+}
+
+/// Reports `point` with its integer arguments (and optionally a byte blob) to the callback.
+pub fn emit(point: &'static str, args: &[(&'static str, i64)], bytes: Option<&[u8]>) {
+    let mut guard = HOOK.lock().unwrap_or_else(|e| e.into_inner());
+    if let Some(hook) = guard.as_mut() {
+        hook(point, args, bytes);
+    }
+}
